@@ -110,6 +110,10 @@ package main
 //@   at dieWith: requires[exit-tool] exitCode == 1 ==> !validate_tdxquote[0].happened && (!verify_tdxquote[0].happened || after(verify_tdxquote[0], err == nil))
 //@   ensures[exit-0] verify_tdxquote[0].happened && after(verify_tdxquote[0], err == nil) && policytooptions[0].happened && after(policytooptions[0], err == nil)
 //@ |       && validate_tdxquote[0].happened && after(validate_tdxquote[0], err == nil)
+// exit 0 also says the policy was applied as given: no numeric field outside
+// its range was narrowed on the way, every byte-string option has its length
+//@   ensures[exit-0-policy-as-given] after(policytooptions[0], polQe(policy) <= 65535 && polPce(policy) <= 65535 && r != nil && optsLenOK(r)
+//@ |       && r.HeaderOptions.MinimumQeSvn == uint16(polQe(policy)) && r.HeaderOptions.MinimumPceSvn == uint16(polPce(policy)))
 //@   ensures[same-quote] before(validate_tdxquote[0], quote) == before(verify_tdxquote[0], quote)
 //@   ensures[effective-policy] before(policytooptions[0], policy == config.Policy) && before(validate_tdxquote[0], options) == after(policytooptions[0], r)
 //@   ensures[effective-root-of-trust] rootoftrust[0].happened && before(rootoftrust[0], rot == config.RootOfTrust) && before(verify_tdxquote[0], options) == after(rootoftrust[0], r)
